@@ -116,6 +116,15 @@ def protocol(ctx: Ctx, rule="R-C17-PROTOCOL") -> None:
     sub = [n for n in ast.walk(f.node) if isinstance(n, ast.Assign) and any(isinstance(t, ast.Subscript) and dotted(t.value) == "signal_kwargs" and C.is_const(t.slice, "result") for t in n.targets)]
     ctx.check(ok or bool(sub), rule, f, "after signal carries result", "signal_kwargs['result'] = awaited value", "the after signal does not carry the operation's result",
               instance="protocol: after carries result")
+    # ... on every path, whatever the result is (None is a result too)
+    after_emits = [n for n in g.calls() if (n.callee or "").endswith("_repid_signal_emitter") and n.ast.args and "after_" in unparse(n.ast.args[0])]
+    res_stores = [n.id for n in g.nodes if (n.kind == "call" and (n.callee or "").endswith("signal_kwargs.update") and "result" in unparse(n.ast)) or
+                  (n.kind == "store" and isinstance(n.ast, ast.Subscript) and dotted(n.ast.value) == "signal_kwargs" and C.is_const(n.ast.slice, "result"))]
+    calls_ = [n for n in g.nodes if n.kind == "call" and (n.callee or "") == "self.call_set_context"]
+    ok_all = bool(after_emits) and bool(calls_) and all(flow.must_pass(g, calls_[0].id, [a.id], res_stores, flow.NORMAL_KINDS) for a in after_emits)
+    ctx.check(ok_all, rule, f, "after signal carries result on every path", "unconditional signal_kwargs['result'] = result",
+              "the 'result' entry of the after signal is set only conditionally: for some results (e.g. None) after-subscribers that declare `result` are called without it (or not at all)",
+              instance="protocol: result unconditional")
     sk = [n for n in ast.walk(f.node) if isinstance(n, ast.Assign) and any(dotted(t) == "signal_kwargs" for t in n.targets)]
     ok = len(sk) == 1 and isinstance(sk[0].value, ast.Call) and dotted(sk[0].value.func) in ("kwargs.copy", "dict") 
     ctx.check(ok, rule, f, "signals get a copy of kwargs", "the call's own kwargs are not mutated", f"signal_kwargs = {unparse(sk[0].value) if sk else '?'}: the operation's kwargs "
@@ -314,6 +323,16 @@ def emitter_own(ctx: Ctx, rule="R-C17-EMITTER-OWN") -> None:
     ok = ok and len(loops) == 1 and all(nm in unparse(loops[0].iter) for nm in ("message_broker", "args_bucket_broker", "results_bucket_broker"))
     ctx.check(ok, rule, cp, "Connection gives its middleware's emitter to all three brokers", "every broker emits to its own connection", "Connection.__post_init__ does not set the emitter "
               "of its own middleware on all three brokers", instance="connection emitter wiring")
+    conn = ctx.prog.cls("repid.connection.Connection")
+    mv = conn.attrs.get("middleware")
+    ok = isinstance(mv, ast.Call) and dotted(mv.func) == "field" and dotted(C.kw(mv, "default_factory")) == "Middleware" and C.kw(mv, "default") is None
+    ctx.check(ok, rule, conn.qualname, "every Connection has its own Middleware (subscriber table)", "field(default_factory=Middleware)",
+              f"Connection.middleware is declared as {unparse(mv) if mv is not None else 'missing'}: all connections of the process share one subscriber table, so signals of one connection "
+              "reach the subscribers of another", instance="middleware per connection")
+    mi = ctx.func(f"{MIDDLEWARE}.__init__")
+    st = [n for n in ast.walk(mi.node) if isinstance(n, (ast.Assign, ast.AnnAssign)) and dotted(n.targets[0] if isinstance(n, ast.Assign) else n.target) == "self.subscribers"]
+    ctx.check(len(st) == 1 and isinstance(st[0].value, ast.Dict) and not st[0].value.keys, rule, mi, "Middleware.subscribers is a fresh dict per instance", "{}", "Middleware.subscribers is not a fresh per-instance dict",
+              instance="subscribers per middleware")
     gc = ctx.func(f"{ABC}.MessageBrokerT.get_consumer")
     st = [n for n in ast.walk(gc.node) if isinstance(n, ast.Assign) and any(dotted(t) == "consumer._signal_emitter" for t in n.targets)]
     ctx.check(len(st) == 1 and dotted(st[0].value) == "self._signal_emitter", rule, gc, "consumer inherits the broker's emitter", "consume signals go to the same connection",
